@@ -502,6 +502,13 @@ class Program:
             if d in self.classes:
                 init = self.find_method(d, "__init__")
                 return ([init] if init else []), d
+            # `obj.method(..)` on a module-level object of a package class: resolved through the receiver's type
+            if isinstance(fn, ast.Attribute) and types is not None and d.startswith("dds."):
+                tq0 = types.receiver_class(f.module.name, fn.value)
+                if tq0 is not None and tq0 in self.classes:
+                    impls0 = self.implementations(tq0, fn.attr)
+                    if impls0:
+                        return impls0, None
             return [], d
         if isinstance(fn, ast.Attribute):
             recv = fn.value
